@@ -44,9 +44,9 @@ PROPS["C04"] = {
 }
 PROPS["C05"] = {
     "units": ["sched", "run", "proc", "task"],
-    "probes": {"sched": ["work::Work::run", "work::Work::recheck_ready"], "run": ["run::build", "run::run_impl", "run::parse_args"], "proc": ["process_posix::run_command"], "task": ["task::run_task", "task::Runner::start"]},
+    "probes": {"sched": ["work::Work::run", "work::Work::recheck_ready"], "run": ["run::build", "run::run_impl", "run::parse_args", "main::main"], "proc": ["process_posix::run_command"], "task": ["task::run_task", "task::Runner::start"]},
     "level": "proof",
-    "assumptions": SCHED_ASSUME + [PROC_ASSUME, TASK_ASSUME, "unit run: build returns Ok(None) only after a Work::run that returned false, Ok(Some) only directly after one that returned true; run_impl maps None -> 1 (silently), Some -> 0 after the summary; main.rs (Err -> 1) is outside any contract",
+    "assumptions": SCHED_ASSUME + [PROC_ASSUME, TASK_ASSUME, "main.rs is under contract (protocol vxm, unit run): process::exit only with run()'s non-zero code or 1 after `n2: error:` was printed, normal return only after Ok(0); run::run (3 lines: run_impl, trace::close, return) is not extracted", "unit run: build returns Ok(None) only after a Work::run that returned false, Ok(Some) only directly after one that returned true; run_impl maps None -> 1 (silently), Some -> 0 after the summary; ",
                     "liveness clause ('every wanted step not downstream of a failure is still brought up to date') is not decided"],
 }
 PROPS["C06"] = {
@@ -82,8 +82,8 @@ SCAN_ASSUME = [
     "the crlf cargo feature is off (default build); usize is 64 bit",
 ]
 PROPS["C12"] = {
-    "units": ["scan", "load", "canon", "perr"],
-    "probes": {"scan": ["parse::Parser::read", "parse::Parser::read_eval", "depfile::parse", "scanner::Scanner::read"], "load": ["load::Loader::path"], "canon": ["canon::canonicalize_path"], "perr": ["scanner::Scanner::format_parse_error"]},
+    "units": ["scan", "load", "canon", "perr", "run"],
+    "probes": {"scan": ["parse::Parser::read", "parse::Parser::read_eval", "depfile::parse", "scanner::Scanner::read"], "load": ["load::Loader::path"], "canon": ["canon::canonicalize_path"], "perr": ["scanner::Scanner::format_parse_error"], "run": ["main::main"]},
     "level": "proof",
     "assumptions": SCAN_ASSUME + ["canonicalize_path's two panics are preconditions (non-empty, <= 60 components; unit canon) that Loader::evaluate_path cannot discharge: KNOWN FINDING D2/D3 (unit load).  The other callers (Work::lookup for command-line names, record_finished for reported deps, db::read_path) are not checked for these two preconditions",
         "unit perr: Scanner::format_parse_error never panics and terminates for every buffer < 2^62 bytes and every error offset <= buffer length (that parse errors carry such an offset is the scanner invariant ofs <= len, not re-proved at the closure in load::parse_with_parser); slice::split is a trusted wrapper (lengths add up); the byte model of str is trusted (strb.pre.rs); from_utf8_unchecked on a manifest that is not UTF-8 is UB that the model hides (listed)",
@@ -172,8 +172,8 @@ PROPS["C20"] = {
 RUN_ASSUME = [
     "ghost protocol (run.pre.rs): load::read, Work::new, Work::{lookup,want_file,want_every_file,run} and the two result constructors of run::build are renamed (R9) to trusted stubs carrying a ghost protocol state; the protocol IS the specification (written from the statements of C17/C18/C05/C19) and the bodies of the real callees are elided here -- their own contracts are units sched/dirty/db",
     "assumed in the stubs: Work::new starts with tasks_run == 0; Work::run only increases tasks_run, by at most 2^32-1; a lookup is a function of the name within one graph generation; the manifest keeps its FileId across generations because load::read interns it first -- proved in unit load: load::read ensures files[0].name == canon(build_filename) (Loader::new gives an empty graph, the first id_from_canonical call returns FileId(0), parse_with_parser and db::open keep existing names)",
-    "R5: trace::scope(name, || f()) is replaced by f(); progress objects, terminal::use_fancy and parse_args are stubs",
-    "main.rs (Err => `n2: error:` + exit 1) is 9 lines outside any contract",
+    "R5: trace::scope(name, || f()) is replaced by f(); progress objects and terminal::use_fancy are stubs; parse_args is under contract over a lexopt shim (R7) with trusted wrappers for argv[0], chdir and OsString conversions",
+    "main.rs is under contract through the protocol vxm (run() and process::exit are stubs); run::run itself (3 lines) is not extracted",
 ]
 PROPS["C17"] = {
     "units": ["run", "load"],
@@ -254,7 +254,7 @@ LEVEL_TEXT = {
     },
     "C12": {
         "text": "Unbounded proof (Verus) on the real text of scanner.rs (Scanner::{get,peek,next,back,read,skip,skip_spaces,expect}), all of parse.rs's Parser (read, read_vardef, read_scoped_vars, read_rule, read_pool, read_unevaluated_paths_to, read_build, read_default, skip_comment, read_ident, read_eval, read_simple_varname, read_escape, skip_spaces) and depfile.rs (skip_spaces, read_path, parse): every `get_unchecked` (rewritten to a checked index, R3) is in bounds at every call site for every byte string, the scanner's three panics are unreachable, every slice(start,end) has start <= end <= len, and every loop carries a decreases measure (buffer length minus offset) -- so for all inputs the manifest/depfile readers terminate with Ok or a ParseError and never read outside the buffer.",
-        "note": "Found D1 (read past the NUL in read_vardef) and D4 (format_parse_error sliced inside a character) -- both fixed in /repo. canonicalize_path's panics (D2, D3) are a KNOWN FINDING at Loader::evaluate_path. Error plumbing to `n2: error:` not covered. Trusted: Scanner::new stub, utf-8/str wrappers, slice::split wrapper.",
+        "note": "Found D1 (read past the NUL in read_vardef) and D4 (format_parse_error sliced inside a character) -- both fixed in /repo. canonicalize_path's panics (D2, D3) are a KNOWN FINDING at Loader::evaluate_path. main.rs turns every Err of run() into `n2: error:` and status 1 (unit run); that load errors reach run() as Err is `?` in build (unit run) and read (unit load). Trusted: Scanner::new stub, utf-8/str wrappers, slice::split wrapper.",
         "design_ref": "DESIGN.md §6 C12",
     },
     "C15": {
@@ -299,7 +299,7 @@ LEVEL_TEXT = {
     },
     "C05": {
         "text": "Unbounded proof (Verus): (a) a build becomes Ready only if every ordering producer is Done (Failed is not Done and is absorbing), so nothing downstream of a failure starts; (b) record_finished has precondition termination == Success, discharged at both call sites of Work::run; (c) loop invariant `failures_left == Some(k) => k >= 1`: when the budget is used up run returns at once; Work::run returns Ok(true) only if every wanted build is Done (all_settled) and no command failed.",
-        "note": "Trusted: as C01. Wait-status decoding (unit proc), run_task's pass-through and the error-to-Failure mapping of the spawned closure (unit task), build()/run_impl result mapping and parse_args' -k handling (unit run) are verified; main.rs (Err -> 1) is not. Genuine defect D15 (-k 0 underflow) found by parse_args' contract and fixed in /repo (3ebad8d). The liveness half ('still brought up to date') is C06's.",
+        "note": "Trusted: as C01. Wait-status decoding (unit proc), run_task's pass-through and the error-to-Failure mapping of the spawned closure (unit task), build()/run_impl result mapping and parse_args' -k handling (unit run) and main.rs (exit status) are verified. Genuine defect D15 (-k 0 underflow) found by parse_args' contract and fixed in /repo (3ebad8d). The liveness half ('still brought up to date') is C06's.",
         "design_ref": "DESIGN.md §6 C05",
     },
     "C06": {
